@@ -21,9 +21,18 @@ func init() {
 }
 
 type ctxModel struct {
-	prec    int64
-	mode    int
-	latched bool
+	prec     int64
+	mode     int
+	latched  bool
+	firstMsg string // message of the ErrNaN that latched the model: the first one must be the one Err() hands out
+}
+
+// nanMessage runs the invalid operation directly on the library (outside any context) and returns its ErrNaN's text.
+func nanMessage(f func()) string {
+	if pi := hx.Try(f); pi != nil && pi.IsNaN {
+		return pi.Text
+	}
+	return "<no ErrNaN>"
 }
 
 func genCtxVal(r *hx.RNG) oracle.Val {
@@ -198,6 +207,25 @@ func c19Case(c *hx.Ctx, r *hx.RNG, idx int64) {
 				}
 				if o.NaN {
 					m.latched = true
+					m.firstMsg = nanMessage(func() {
+						// on fresh copies: the context call may have overwritten an operand that was also the receiver
+						X, Y, U := hx.Mk(k.x, digitsOf(k.x), 0), hx.Mk(k.y, digitsOf(k.y), 0), hx.Mk(k.u, digitsOf(k.u), 0)
+						t := new(decimal.Decimal).SetPrec(uint(m.prec))
+						switch k.op {
+						case "Add":
+							t.Add(X, Y)
+						case "Sub":
+							t.Sub(X, Y)
+						case "Mul":
+							t.Mul(X, Y)
+						case "Quo":
+							t.Quo(X, Y)
+						case "FMA":
+							t.FMA(X, Y, U)
+						case "Sqrt":
+							t.Sqrt(X)
+						}
+					})
 					c.Count("nan_latched", 1)
 					break
 				}
@@ -232,6 +260,10 @@ func c19Case(c *hx.Ctx, r *hx.RNG, idx int64) {
 			if m.latched {
 				if _, ok := e1.(decimal.ErrNaN); !ok {
 					bad("wrong-error", "Err() returned %T %v, want the recorded ErrNaN", e1, e1)
+					return
+				}
+				if e1.Error() != m.firstMsg {
+					bad("not-the-first-error", "Err() returned %q, but the first NaN since the last Err() was %q", e1.Error(), m.firstMsg)
 					return
 				}
 				c.Count("err_returned_ErrNaN", 1)
@@ -350,7 +382,10 @@ func c19Case(c *hx.Ctx, r *hx.RNG, idx int64) {
 			if isNaN {
 				if !m.latched {
 					m.latched = true
+					m.firstMsg = nanMessage(func() { new(decimal.Decimal).SetFloat64(math.NaN()) })
 					c.Count("nan_latched", 1)
+				} else {
+					c.Count("nan_while_latched", 1)
 				}
 				break
 			}
